@@ -45,6 +45,7 @@ theorem toRecs_eq_wanted (e : Ev) : e.toRecs = wanted e := by
   | mrt c emb => simp [Ev.toRecs, wanted, updContent_eq]
   | down addr asn id uptime r emb =>
     cases r <;> simp [Ev.toRecs, wanted, globalHdr, u32_eq_be4, sessDownToBmp, wantedDown]
+  | locUp rid asn emb => rfl
   | flush addr asn id upts post chgs embs =>
     simp only [Ev.toRecs, wanted, flushRecs, wantedFlush, applySnapshot_eq, globalHdr, u32_eq_be4, updContent_eq]
   | dump rid c4 c6 =>
@@ -287,6 +288,11 @@ theorem recsDom_wanted (e : Ev) (he : evDom e = true) :
     have hd : (wanted (.mrt c emb)).all (recDom none) = true := by
       simp only [evDom, srcDom, updDom, Bool.and_eq_true, decide_eq_true_eq] at he
       cases ha : c.attrs <;> simp_all [wanted, recDom, monOf, monDom]
+    exact recsDom_noTd _ (by simp [wanted, noTd]) hd np rest
+  | locUp rid asn emb =>
+    have hd : (wanted (.locUp rid asn emb)).all (recDom none) = true := by
+      simp only [evDom, Bool.and_eq_true, decide_eq_true_eq] at he
+      simp_all [wanted, recDom, hdrDom, ipWf, Ip.isV6]
     exact recsDom_noTd _ (by simp [wanted, noTd]) hd np rest
   | down addr asn id uptime r emb =>
     have hd : (wanted (.down addr asn id uptime r emb)).all (recDom none) = true := by
